@@ -37,7 +37,7 @@ def int_returns(fn: FuncInfo) -> list[tuple[ast.Return, object]]:
 
 def status_functions(ctx) -> list[FuncInfo]:
     out = []
-    for fn in ctx.prog.functions.values():
+    for fn in ctx.prog.live_functions():
         rets = int_returns(fn)
         vals = [v for _, v in rets]
         consts = {v for v in vals if v is not None}
@@ -237,7 +237,7 @@ def rule_ai_config(ctx, rep):
     )
     mod = ctx.prog.module("codemodder.llm")
     n = 0
-    for fn in [f for f in ctx.prog.functions.values() if f.module is mod and f.cls is None]:
+    for fn in [f for f in ctx.prog.live_functions() if f.module is mod and f.cls is None]:
         raises = [r_ for r_ in walk_no_nested(fn.node) if isinstance(r_, ast.Raise) and r_.exc is not None and "MisconfiguredAIClient" in unparse(r_.exc)]
         if not raises:
             continue
